@@ -26,7 +26,7 @@ func flattenStructParam(pkg, recv, fn, param string) {
 			newList = append(newList, fl)
 			continue
 		}
-		st := findStruct(p, id.Name)
+		st := g7FindStruct(p, id.Name)
 		if st == nil {
 			fatal("flattenStructParam: struct %s not found", id.Name)
 		}
@@ -54,7 +54,7 @@ func flattenStructParam(pkg, recv, fn, param string) {
 	rewriteSelectors(fd.Body, param)
 }
 
-func findStruct(p *pkgInfo, name string) *ast.StructType {
+func g7FindStruct(p *pkgInfo, name string) *ast.StructType {
 	for _, f := range p.files {
 		for _, d := range f.Decls {
 			gd, ok := d.(*ast.GenDecl)
